@@ -204,7 +204,9 @@ func checkC20(c *Ctx) {
 		runtime.GOMAXPROCS(old)
 		in := map[string]int{"goroutines": cf.g, "GOMAXPROCS": cf.procs, "rounds": cf.rounds, "max_plain": cf.maxPlain}
 		c.Oracle("concurrent-results-equal-sequential", len(r.mismatches) == 0, "concurrent-result-differs", in, strings.Join(r.mismatches, "; "))
-		c.Oracle("shared-values-unchanged", len(r.snapshots) == 0, "shared-value-mutated", in, strings.Join(r.snapshots, "\n"))
+		// a correspondence (with the translator's "no shared writes"), not an oracle: a properly
+		// synchronised cache would change the snapshot without breaking the property
+		c.Compare("deep snapshot of the shared values after the run~unchanged (no shared writes)", in, fmt.Sprint(len(r.snapshots), " changed ", clipN(strings.Join(r.snapshots, " | "), 600)), "0 changed ")
 		for k := 0; k < r.ops; k++ {
 			c.note(fmt.Sprintf("cfg%d:op%d", i, k), true)
 		}
